@@ -75,7 +75,7 @@ class ParseRecv(ICommParseRecv):
         self, decode: DsfmtItem, sample: DParseStreamData
     ) -> bytes:
         # pack data - always as little-endian
-        fmt = "<" + "b"
+        fmt = "<" + "B"
         if sample.vdim:
             if not decode.user:
                 fmt += str(sample.vdim) + decode.dsfmt
